@@ -32,6 +32,8 @@ pub struct AbsEntry {
     pub ign: bool,
     pub fmt: String, // full | part | glyph
     pub id: u32,
+    /// string id (then every entry of the table has one and `id` is unused)
+    pub sid: Option<Vec<u8>>,
 }
 #[derive(Clone, Debug)]
 pub struct AbsTable {
@@ -72,12 +74,13 @@ impl AbsEntry {
             conj: v["conj"].as_bool().unwrap_or(false),
             ign: v["ign"].as_bool().unwrap_or(false),
             fmt: v["fmt"].as_str().unwrap_or("glyph").to_string(),
-            id: v["id"].as_u64().unwrap() as u32,
+            id: v["id"].as_u64().unwrap_or(0) as u32,
+            sid: v["id"].as_array().map(|a| a.iter().map(|x| x.as_u64().unwrap() as u8).collect()),
         }
     }
     pub fn to_json(&self) -> Value {
         serde_json::json!({"cps": self.cps, "feats": self.feats, "ds": self.ds.iter().map(|(a, b)| seg_json(*a, *b)).collect::<Vec<_>>(),
-            "kids": self.kids, "conj": self.conj, "ign": self.ign, "fmt": self.fmt, "id": self.id})
+            "kids": self.kids, "conj": self.conj, "ign": self.ign, "fmt": self.fmt, "id": match &self.sid { Some(b) => serde_json::json!(b), None => serde_json::json!(self.id) }})
     }
 }
 impl AbsTable {
@@ -165,6 +168,38 @@ pub fn template_string(tmpl: &str) -> String {
     }
 }
 
+/// the id as it appears in URIs and events: a number, or the bytes of a string id
+pub fn id_json(e: &AbsEntry) -> serde_json::Value {
+    match &e.sid {
+        Some(b) => serde_json::json!(b),
+        None => serde_json::json!(e.id),
+    }
+}
+pub fn entry_uri_string(tmpl: &str, e: &AbsEntry) -> String {
+    match &e.sid {
+        Some(b) => format!("{tmpl}/{}", base32hex(b)),
+        None => uri_string(tmpl, e.id),
+    }
+}
+fn base32hex(bytes: &[u8]) -> String {
+    const SYM: &[u8; 32] = b"0123456789ABCDEFGHIJKLMNOPQRSTUV";
+    let mut out = String::new();
+    let (mut acc, mut bits) = (0u32, 0u32);
+    for b in bytes {
+        acc = (acc << 8) | *b as u32;
+        bits += 8;
+        while bits >= 5 {
+            out.push(SYM[((acc >> (bits - 5)) & 31) as usize] as char);
+            bits -= 5;
+        }
+        acc &= (1 << bits) - 1;
+    }
+    if bits > 0 {
+        out.push(SYM[((acc << (5 - bits)) & 31) as usize] as char);
+    }
+    out
+}
+
 /// Independent expansion of "<tmpl>/{id}": base32hex (no padding) of the id's big-endian
 /// bytes without leading zero bytes.
 pub fn uri_string(tmpl: &str, id: u32) -> String {
@@ -213,7 +248,11 @@ pub fn build_format2(t: &AbsTable, variant: u64) -> (Vec<u8>, Vec<usize>) {
     out.extend(&n.to_be_bytes()[1..]);
     let entries_offset_pos = out.len();
     out.extend([0u8; 4]);
-    out.extend([0u8; 4]); // no id string data
+    let id_string_offset_pos = out.len();
+    out.extend([0u8; 4]); // id string data offset (filled in below when the entries carry string ids)
+    let string_ids = t.entries.iter().any(|e| e.sid.is_some());
+    let mut id_data: Vec<u8> = vec![];
+    let mut last_sid: Vec<u8> = vec![];
     let tmpl = template_string(&t.tmpl);
     out.extend((tmpl.len() as u16).to_be_bytes());
     out.extend(tmpl.as_bytes());
@@ -231,7 +270,13 @@ pub fn build_format2(t: &AbsTable, variant: u64) -> (Vec<u8>, Vec<usize>) {
             flags |= 0b10;
         }
         let delta = e.id as i64 - last_id - 1;
-        if delta != 0 || (variant + i as u64) % 3 == 0 {
+        let sid = e.sid.clone().unwrap_or_default();
+        if string_ids {
+            // the length field may be left out when the id repeats the previous one (the first entry: the empty string)
+            if sid != last_sid || (variant + i as u64) % 3 == 0 {
+                flags |= 0b100;
+            }
+        } else if delta != 0 || (variant + i as u64) % 3 == 0 {
             flags |= 0b100;
         }
         let fmtn = fmt_number(&e.fmt);
@@ -281,9 +326,15 @@ pub fn build_format2(t: &AbsTable, variant: u64) -> (Vec<u8>, Vec<usize>) {
             }
         }
         if flags & 0b100 != 0 {
-            let d = delta as i32;
-            out.extend(&d.to_be_bytes()[1..]);
+            if string_ids {
+                out.extend((sid.len() as u16).to_be_bytes());
+                id_data.extend(&sid);
+            } else {
+                let d = delta as i32;
+                out.extend(&d.to_be_bytes()[1..]);
+            }
         }
+        last_sid = sid;
         last_id = e.id as i64;
         if flags & 0b1000 != 0 {
             out.push(fmtn);
@@ -305,6 +356,11 @@ pub fn build_format2(t: &AbsTable, variant: u64) -> (Vec<u8>, Vec<usize>) {
             }
             out.extend(set.to_sparse_bit_set());
         }
+    }
+    if string_ids {
+        let off = out.len() as u32;
+        out[id_string_offset_pos..id_string_offset_pos + 4].copy_from_slice(&off.to_be_bytes());
+        out.extend(id_data);
     }
     (out, flag_offsets)
 }
